@@ -202,6 +202,21 @@ def r_good_table(ck: Checker) -> None:
     ck.add("new elements = untouched siblings + unfolded elements", els is not None and unparse(els).replace(" ", "") == "rest_elems+new_elements", func, site, f"`{unparse(els) if els is not None else None}`", "")
 
 
+def _pad_amount(ck: Checker, func, pad: ast.Call) -> None:  # type: ignore[no-untyped-def]
+    """`T.extend([unique] * (max_arity - len(T) + 1))`: the number of pads is computed from the length of the very tuple
+    that is padded, so that it ends up one longer than every sibling tuple"""
+    recv = unparse(pad.func.value)  # type: ignore[attr-defined]
+    arg = pad.args[0]
+    amount = None
+    if isinstance(arg, ast.BinOp) and isinstance(arg.op, ast.Mult):
+        amount = arg.right if isinstance(arg.left, (ast.List, ast.Tuple)) else arg.left
+    txt = unparse(amount).replace(" ", "") if amount is not None else None
+    ok = txt in (f"max_arity-len({recv})+1", f"max_arity+1-len({recv})", f"1+max_arity-len({recv})")
+    ck.add(f"{func.name}: the pad makes the padded tuple itself longer than every sibling tuple", ok, func, pad, f"`{recv}` is extended by `{txt}` pads",
+           "padding computed from another list's length (the element's own tuple, which still holds the weight) leaves the new tuple exactly as long as a sibling tuple: the two can coincide and a weight is counted once",
+           rule="C15.G6.padding")
+
+
 def r_padding(ck: Checker) -> None:
     """G6: padded tuples stay distinguishable: padding is computed from TUPLE lengths"""
     func = ck.func(f"{CLS}.compute_new_body_elements")
@@ -219,6 +234,7 @@ def r_padding(ck: Checker) -> None:
            "comparisons and assignments of the helper (`A <= L`) restrict when it derives anything: dropping them makes the unfolded elements count tuples the helper never produced", rule="C15.helper-body")
     pads = [c for c in attr_calls(func, "extend") if "unique" in unparse(c)]
     ck.need(len(pads) == 1, "tuples are padded with the constant `unique`")
+    _pad_amount(ck, func, pads[0])
     mn = ck.func(f"{CLS}.inline_minimize")
     pm = [n for n in find_nodes(mn.node, lambda n: isinstance(n, ast.Assign)) if unparse(n.targets[0]) == "max_arity" and isinstance(n.value, ast.Call)]  # type: ignore[attr-defined]
     ck.need(len(pm) == 1, "inline_minimize computes a padding length")
@@ -226,6 +242,9 @@ def r_padding(ck: Checker) -> None:
     lp = enclosing_loop(mn, pm[0])
     ok = bool(re.fullmatch(r"max\(max_arity,len\((\w+)\)\)", txt)) and lp is not None and unparse(lp.iter) == "self.minimize_tuples"
     ck.add("objective padding derives from the objective tuples' lengths", ok, mn, pm[0], f"`{txt}` over `{unparse(lp.iter) if lp is not None else None}`", "")
+    pads_m = [c for c in attr_calls(mn, "extend") if "unique" in unparse(c)]
+    ck.need(len(pads_m) == 1, "objective tuples are padded with the constant `unique`")
+    _pad_amount(ck, mn, pads_m[0])
 
 
 def r_inline_minimize(ck: Checker) -> None:
@@ -294,6 +313,32 @@ def r_transform_args(ck: Checker) -> None:
     ck.guard("A5 only variables that are not head arguments are renamed fresh", tr, mk[0], f"{v} not in orig2passed", "")  # type: ignore[arg-type]
     d = single_def(func, "orig2passed")
     ck.add("head arguments are replaced by the passed arguments position-wise", d is not None and unparse(d).replace(" ", "") == f"dict(zip({func.params()[0]},{func.params()[1]}))", func, func.node, f"orig2passed = `{unparse(d) if d is not None else None}`", "")
+    # one renaming per unfolded element: everything that comes from the helper rule and shares its variables (tuple,
+    # condition, rest of the helper body) goes through ONE transform_args call, which keeps one rename map
+    cb = ck.func(f"{CLS}.compute_new_body_elements")
+    calls = resolved_calls(ck.prg, cb, f"ngo.{CLS}.transform_args")
+    in_loop = [c for c in calls if enclosing_loop(cb, c) is not None]
+    lp = enclosing_loop(cb, in_loop[0]) if in_loop else None
+    ck.need(len(in_loop) >= 1 and lp is not None and isinstance(lp.target, ast.Name), "compute_new_body_elements renames per aggregate element")
+    e = lp.target.id  # type: ignore[union-attr]
+
+    def parts(x: ast.expr) -> list[str]:
+        if isinstance(x, ast.BinOp) and isinstance(x.op, ast.Add):
+            return parts(x.left) + parts(x.right)
+        if isinstance(x, ast.Call) and isinstance(x.func, ast.Name) and x.func.id == "list" and len(x.args) == 1:
+            return [unparse(x.args[0])]
+        if isinstance(x, (ast.List, ast.Tuple)) and all(isinstance(y, ast.Starred) for y in x.elts):
+            return [unparse(y.value) for y in x.elts]  # type: ignore[attr-defined]
+        return [unparse(x)]
+
+    itb = ck.interp(cb)
+    call0 = in_loop[0]
+    got = [parts(itb.expand(call0.args[2], st)) for st in itb.states(call0)] if len(call0.args) >= 3 else []
+    rb = single_def(cb, "rbody")
+    want = {f"{e}.terms", f"{e}.condition"}
+    ok = len(calls) == 1 and bool(got) and all(want <= set(g) and len(g) == 3 for g in got) and rb is not None
+    ck.add("tuple, condition and the rest of the helper's body are renamed together in one call per element", ok, cb, call0, f"{len(calls)} transform_args call(s); renamed lists {got[:1]}",
+           "each transform_args call keeps its own map from helper variables to fresh names: a variable shared between the helper's body and the aggregate element gets two names if they are renamed apart, and the join is lost")
 
 
 RULES = [
